@@ -142,10 +142,12 @@ RouteOf(decls, cfg) ==
 (* their Dezyne name; C++ parameter types are those of the extern the      *)
 (* written type name resolves to from the interface scope.                 *)
 (***************************************************************************)
-CppOf(decls, itf, fm) == decls[Resolve(decls, fm.type, itf.fqn, {"extern"}).i].cpp
+\* an extern whose C++ text is itself a reference type is given as [cpp |-> text without '&', cppref |-> TRUE]
+ExtOf(decls, itf, fm) == decls[Resolve(decls, fm.type, itf.fqn, {"extern"}).i]
 Params(decls, itf, e, withRef) ==
-  [j \in 1..Len(e.formals) |-> [cpp |-> CppOf(decls, itf, e.formals[j]),
-                                ref |-> withRef /\ e.formals[j].dir # "in", name |-> e.formals[j].name]]
+  [j \in 1..Len(e.formals) |-> [cpp |-> ExtOf(decls, itf, e.formals[j]).cpp,
+                                ref |-> (withRef /\ e.formals[j].dir # "in") \/ ExtOf(decls, itf, e.formals[j]).cppref,
+                                name |-> e.formals[j].name]]
 ArgNames(e) == [j \in 1..Len(e.formals) |-> e.formals[j].name]
 InArgNames(e) == LET ins == SelectSeq(e.formals, LAMBDA fm : fm.dir = "in") IN [j \in 1..Len(ins) |-> ins[j].name]
 
@@ -163,7 +165,8 @@ WiringOf(decls, cfg) ==
             ev(d) == {j \in DOMAIN itf.events : itf.events[j].dir = d}
             E(j) == itf.events[j]
         IN {[k |-> "accessor", port |-> p.name, dir |-> p.dir, strict |-> (IF mts THEN "Mts" ELSE "Sts"), mc |-> isMc,
-             itf |-> itf.fqn, target |-> (IF ~mts THEN "encapsulee" ELSE IF isMc THEN "selector" ELSE "boundary")]}
+             itf |-> itf.fqn, target |-> (IF ~mts THEN "encapsulee" ELSE IF isMc THEN "selector" ELSE "boundary"),
+             rooted |-> TRUE]}                  \* types are spelled from the global namespace (::A::I), never relative
            \cup (IF isMc THEN {[k |-> "mc-final", port |-> p.name]}
                          ELSE {[k |-> "check", port |-> p.name, target |-> (IF mts THEN "boundary" ELSE "encapsulee")]})
            \cup (IF mts THEN {[k |-> "meta-name", port |-> p.name, side |-> (IF p.dir = "provides" THEN "require" ELSE "provide")],
